@@ -47,6 +47,9 @@ class Stack(ArrayExpr):
         return TransferBytes(0.0, hi)
 
     def _layer(self) -> dict:
+        graph = self._graph_if_unlowered()
+        if graph is not None:
+            return graph
         keys = list(product([self._name], *[range(len(bd)) for bd in self.chunks]))
         names = [a.name for a in self.args]
         axis = self.axis
